@@ -83,6 +83,10 @@ def build_cases(rng, thorough):
             cases.append((f"def f(a, {nm}={L}):\n    pass\n", E({("B107", None)} if m else set()), dict(pos="default", name=nm, lit=lit)))
             cases.append((f"def f({nm}={L}, /, b=None):\n    pass\n", E({("B107", None)} if m else set()), dict(pos="default-posonly", name=nm, lit=lit)))
             cases.append((f"def f(a={L}, /, {nm}=None):\n    pass\n", E(set()), dict(pos="default-posonly-other", name=nm, lit=lit)))
+            # required keyword-only parameters after the `*` (no default: a None placeholder in kw_defaults) do not shift the pairing of the positional defaults
+            # (seeded change C16-m13 dropped the placeholders before padding)
+            cases.append((f"def f(host, {nm}={L}, *, timeout):\n    pass\n", E({("B107", None)} if m else set()), dict(pos="default-before-required-kwonly", name=nm, lit=lit)))
+            cases.append((f"def f({nm}={L}, *rest, flag, mode):\n    pass\n", E({("B107", None)} if m else set()), dict(pos="default-before-two-required-kwonly", name=nm, lit=lit)))
         # non-literal values are never reported
         for nl in (NONLIT if thorough else rng.sample(NONLIT, 2)):
             cases.append((f"{nm} = {nl}\n", set(), dict(pos="assign-nonliteral", name=nm, lit=nl)))
